@@ -158,7 +158,7 @@ def _append_arrays(body, backend):
     out = {}
     if backend == "js":
         pats = [r"internalConstructor, (p\d+)\)\._intoFFI\(functionCleanupArena, \{([^}]*)\}",
-                r"optionToArgsForCalling\((p\d+), .*?_writeToArrayBuffer\(arrayBuffer, offset \+ 0, functionCleanupArena, \{([^}]*)\}"]
+                r"optionToArgsForCalling\((p\d+), (?:(?!optionToArgsForCalling).)*?_writeToArrayBuffer\(arrayBuffer, offset \+ 0, functionCleanupArena, \{([^}]*)\}"]
     else:
         pats = [r"(p\d+)\._toFfi\(temp\.arena((?:, \w+AppendArray: \[[^\]]*\])*)\)"]
     for pat in pats:
